@@ -586,7 +586,7 @@ def p6g_batch(ctx, rows):
         secs[name] = round(secs.get(name, 0.0) + time.time() - t0[0], 2)
         t0[0] = time.time()
     # (a) both members of a compatible pair in ONE mesh x every site class: full machinery (Lean eq / ladder model)
-    for i in range(ctx.scale(56, 1400)):
+    for i in range(ctx.scale(56, 700)):
         site = SITES[i % len(SITES)]
         lm, t = mg6.gen_pair_mesh(rng, max_cells_per_dir=3, scale=rng.choice([1e-3, 1.0, 1.0, 2.5, 1e3]))
         if i % 5 == 4:
@@ -729,6 +729,200 @@ def meshgen_from_any(fields):
     return mg6.from_fc_any(fields)
 
 
+# ---------------------------------------------------------------- phase 6: a selected predicate that RAISES on the deviating field
+
+class _RaisesOnDeviation:
+    """user predicate in the style of numpy.testing.assert_allclose: returns success or RAISES (AssertionError)"""
+
+    def __call__(self, a, b):
+        from fieldcompare.predicates import PredicateResult
+        np.testing.assert_allclose(a, b, rtol=1e-9, atol=0.0)
+        return PredicateResult(True)
+
+    def __str__(self):
+        return "RaisesOnDeviation(rtol=1e-9)"
+
+
+class _Recording:
+    """wraps a predicate and records the (annotation-free) field names on which it raised"""
+
+    def __init__(self, inner, log, name):
+        self.inner, self.log, self.name = inner, log, name
+
+    def __call__(self, a, b):
+        try:
+            return self.inner(a, b)
+        except Exception:
+            self.log.append(self.name)
+            raise
+
+    def __str__(self):
+        return "Recording(" + str(self.inner) + ")"
+
+
+def _pred_selector(kind, log):
+    from fieldcompare.predicates import DefaultEquality, FuzzyEquality
+
+    def sel(sf, rf):
+        if kind == "a":
+            inner = _RaisesOnDeviation()
+        elif kind == "c" and sf.name == "v":
+            # per-component tolerances of the WRONG length (the field has 2 or 3 components)
+            inner = FuzzyEquality(abs_tol=np.array([1e-9] * 5), rel_tol=1e-9)
+        else:
+            inner = DefaultEquality()
+        return _Recording(inner, log, sf.name)
+    return sel
+
+
+def run_pred_case(case):
+    """-> observable dict of MeshFieldsComparator(src, ref)(predicate_selector=...) for a p6-predicate-raises case"""
+    from fieldcompare.mesh import MeshFieldsComparator
+    log, msgs = [], []
+    src, ref = mg6.to_fc_storage(case["src"]), mg6.to_fc_storage(case["ref"])
+    with warnings.catch_warnings():
+        warnings.simplefilter("ignore")
+        with np.errstate(all="ignore"):
+            try:
+                suite = MeshFieldsComparator(src, ref)(predicate_selector=_pred_selector(case["pred"], log),
+                                                       fieldcomp_callback=lambda _: None, reordering_callback=msgs.append)
+            except Exception as e:  # noqa: BLE001
+                return {"escaped": type(e).__name__, "raised": sorted(set(log))}
+    rung = "as-is"
+    for m in msgs:
+        if "Retrying with " in m:
+            rung = m.split("Retrying with ")[-1].rstrip(".").replace(" ", "-")
+    return {"suite": bool(suite), "status": suite.status.name, "domain": bool(suite.domain_equality_check),
+            "statuses": sorted((c.name, c.status.name) for c in suite), "failed": sorted(c.name for c in suite.failed),
+            "passed": sorted(c.name for c in suite.passed), "skipped": sorted(c.name for c in suite.skipped),
+            "raised": sorted(set(log)), "rung": rung, "report": suite.report}
+
+
+def pred_case_problems(case, obs):
+    """what the property demands of such a case -> list of problem descriptions"""
+    if "escaped" in obs:
+        return []                       # an exception that leaves the comparator is not a PASS
+    bad = []
+    base = lambda n: n.split(" @ ")[0]   # noqa: E731
+    for name in obs["raised"]:
+        comps = [(n, st) for n, st in obs["statuses"] if base(n) == name]
+        if not comps or any(st not in ("error", "failed") for _, st in comps if st != "passed") or \
+                not any(st in ("error", "failed") for _, st in comps):
+            bad.append(f"the predicate raised on field '{name}' but its comparison is reported as {comps}")
+        if not any(base(n) == name for n in obs["failed"]):
+            bad.append(f"the predicate raised on field '{name}' but the comparison is not among suite.failed")
+        if any(base(n) == name for n in obs["skipped"]):
+            bad.append(f"the predicate raised on field '{name}' and the comparison is counted as skipped")
+    if obs["raised"] and (obs["suite"] or obs["status"] != "failed"):
+        bad.append(f"a predicate raised ({obs['raised']}) but bool(suite)={obs['suite']}, suite.status={obs['status']}")
+    if case["changed"] and (obs["suite"] or obs["status"] != "failed"):
+        bad.append(f"one changed entry ({case['changed']}) with a predicate that raises on it, but bool(suite)={obs['suite']}, "
+                   f"suite.status={obs['status']}")
+    return bad
+
+
+def _pad3(lm):
+    """the same 2-d data set stored with three coordinate columns (zero z, vectors padded)"""
+    out = copy.deepcopy(lm)
+    out["points"] = [p + [0.0] for p in out["points"]]
+    out["dim"] = 3
+    for f in out["pf"] + out["cf"]:
+        if f["tail"] == [2]:
+            v = []
+            for i in range(0, len(f["v"]), 2):
+                v += f["v"][i:i + 2] + [0.0]
+            f["tail"], f["v"] = [3], v
+    return out
+
+
+def _perm_points_only(rng, lm):
+    """points (and point fields) permuted, cells and type blocks in place"""
+    n = len(lm["points"])
+    perm = list(range(n))
+    rng.shuffle(perm)
+    inv = {old: new for new, old in enumerate(perm)}
+    out = {"dim": lm["dim"], "points": [list(lm["points"][o]) for o in perm],
+           "cells": [[t, [[inv[i] for i in r] for r in rows]] for t, rows in lm["cells"]], "pf": [], "cf": copy.deepcopy(lm["cf"])}
+    for f in lm["pf"]:
+        rs = _rowsize(f["tail"])
+        out["pf"].append(dict(f, v=[x for o in perm for x in f["v"][o * rs:(o + 1) * rs]]))
+    return out
+
+
+def pred_raises_batch(ctx):
+    """tag p6-predicate-raises: the selected predicate RAISES on the deviating field (per-field status `error`):
+    (a) a user predicate that raises only on deviation, (b) DefaultEquality on a float field vs a STRING field of the same
+    name, (c) FuzzyEquality with a per-component tolerance array of the wrong length.  Operands prepared so that each rung of
+    the retry ladder is the deciding one (as-is / extended dimension / sorted points / sorted cells).  Demanded: a raise is
+    reported as `error`, counted among suite.failed (never skipped / passed), bool(suite) False, suite.status failed; with ONE
+    changed entry the suite fails.  Search only (python-side expectation; the Lean ladder model has no raising predicates)."""
+    import os as _os
+    import tempfile
+    from fcv import cli
+    rng = ctx.rng
+    n_viol = 0
+    for i in range(ctx.scale(3, 40)):
+        if i % 3 == 0:
+            lm = mg6.big_lattice(3, 2, dim=2, style="quad", point_fields=0, cell_fields=0)
+        else:
+            lm, _ = mg6.gen_pair_mesh(rng, topo=2, dim=2, max_cells_per_dir=3, scale=rng.choice([1.0, 2.5]), fields=False)
+        n = len(lm["points"])
+        lm["pf"] = [{"name": "u", "dt": "f64", "tail": [], "v": [1.5 + 0.25 * k for k in range(n)]},
+                    {"name": "v", "dt": "f64", "tail": [2], "v": [3.0 + 0.5 * k for k in range(2 * n)]}]
+        lm["cf"] = [{"name": "c", "ctype": t, "dt": "f64", "tail": [], "v": [7.0 + 0.125 * k + 100 * b for k in range(len(rows))]}
+                    for b, (t, rows) in enumerate(lm["cells"])]
+        variants = [("as-is", lambda m: copy.deepcopy(m)),
+                    ("3d-vs-2d", _pad3),
+                    ("points-permuted+orphan", lambda m: mg6.insert_orphans(rng, _perm_points_only(rng, m), "front", 1)),
+                    ("relabelled+orphans", lambda m: meshgen.relabel(rng, m, extra_orphans=2)),
+                    ("3d+relabelled", lambda m: meshgen.relabel(rng, _pad3(m), extra_orphans=1))]
+        sites = [None, ("u", 0), ("u", n - 1), ("u", n // 2), ("v", 2 * n - 1), ("v", 0), ("c", 0)]
+        for vi, (vname, prep) in enumerate(variants):
+            for pred in ("a", "b", "c"):
+                for si, site in enumerate(sites):
+                    if ctx.tier != "thorough" and site is not None and (si + vi + i) % 3 != 0 and pred != "a":
+                        continue
+                    mut = copy.deepcopy(lm)
+                    if site is not None:
+                        fs = [f for f in mut["pf"] + mut["cf"] if f["name"] == site[0]]
+                        fs[0]["v"][site[1] % len(fs[0]["v"])] += 0.0625
+                    if pred == "b":
+                        # the float field `u` is a STRING field of the same name on the modified side
+                        mut["pf"][0] = dict(mut["pf"][0], dt="str", v=[repr(x) for x in mut["pf"][0]["v"]])
+                    other = prep(mut)
+                    for role in ("mutated-as-source", "mutated-as-reference"):
+                        s_, r_ = (other, lm) if role == "mutated-as-source" else (lm, other)
+                        case = {"kind": "p6-pred", "src": s_, "ref": r_, "pred": pred, "changed": list(site) if site else None,
+                                "variant": vname, "role": role, "tag": f"pred-{pred}-{site[0] if site else 'unchanged'}",
+                                "flags": [False, False, False]}
+                        obs = run_pred_case(case)
+                        probs = pred_case_problems(case, obs)
+                        ctx.case(("p6-pred", i, vname, pred, si, role), nontrivial=site is not None or pred != "a",
+                                 tags=["p6-predicate-raises", "pred-" + pred, "variant-" + vname, role,
+                                       "rung-" + obs.get("rung", "escaped"), "changed" if site else "unchanged",
+                                       "raised" if obs.get("raised") else "not-raised",
+                                       "suite-" + str(obs.get("suite", "escaped:" + str(obs.get("escaped"))))],
+                                 sample={"pred": pred, "variant": vname, "changed": site, "obs": obs} if si == 1 and vi == 3 else None)
+                        if probs and n_viol < 20:
+                            n_viol += 1
+                            ctx.violation(case, "; ".join(probs)[:1500] + f" | statuses={obs.get('statuses')} rung={obs.get('rung')}",
+                                          "FAIL (error status counted as failure)", cls=None,
+                                          what="a raising predicate / a changed entry under a raising predicate does not make the comparison fail")
+    # (b) through the CLI: a numeric column vs a string column of the same name (tabular files; VTK formats cannot state strings)
+    with tempfile.TemporaryDirectory(prefix="fcv_c03_pred_") as tmp:
+        fa, fb, fc_ = (_os.path.join(tmp, x) for x in ("a.csv", "b.csv", "c.csv"))
+        open(fa, "w").write("x,u\n0.0,1.5\n1.0,2.5\n2.0,3.5\n")
+        open(fb, "w").write("x,u\n0.0,abc\n1.0,def\n2.0,ghi\n")
+        open(fc_, "w").write("x,u\n0.0,1.5\n1.0,2.5\n2.0,3.5\n")
+        for name, args, want_zero in (("num-vs-str", [fa, fb], False), ("str-vs-num", [fb, fa], False), ("same", [fa, fc_], True)):
+            code, _ = cli.run_cli(["file"] + args)
+            ctx.case(("p6-pred-cli", name), nontrivial=True, tags=["p6-predicate-raises", "pred-b-cli", f"cli-{code}"])
+            if (code == 0) != want_zero and not want_zero:
+                ctx.violation({"kind": "p6-pred-cli", "files": {"a.csv": open(args[0]).read(), "b.csv": open(args[1]).read()}, "tag": name,
+                               "role": "-", "flags": []}, f"exit={code}", "exit != 0", cls=None,
+                              what="CLI: numeric column vs string column of the same name compares as passed")
+
+
 def gen_cases(rng, i, ladder=True):
     """cases derived from one base mesh"""
     site = SITES[i % len(SITES)]
@@ -794,6 +988,7 @@ def run(ctx):
         rows = []
         p6g_batch(ctx, rows)
         flush(ctx, rows)
+        pred_raises_batch(ctx)
     file_batch(ctx)
     ctx.spec_viol = sorted(ctx.spec_viol, key=lambda v: len(str(v["case"])))[:100]
 
@@ -836,6 +1031,31 @@ def replay(ctx, payload):
     case = payload["case"]
     if case.get("kind") == "vtu-files":
         return replay_files(ctx, payload)
+    if case.get("kind") == "p6-pred":
+        obs = run_pred_case(case)
+        probs = pred_case_problems(case, obs)
+        print(f"replay: predicate kind {case['pred']} ({case['variant']}, {case['role']}, changed entry {case['changed']}): {obs}")
+        for pr in probs:
+            print("replay: problem:", pr)
+        if probs:
+            print(f"VIOLATION property=C03 replay={payload.get('_path', '<replay>')}")
+            return 1
+        print("replay: no violation")
+        return 0
+    if case.get("kind") == "p6-pred-cli":
+        import tempfile
+        from fcv import cli
+        with tempfile.TemporaryDirectory(prefix="fcv_c03_pred_") as tmp:
+            import os as _os
+            fa, fb = _os.path.join(tmp, "a.csv"), _os.path.join(tmp, "b.csv")
+            open(fa, "w").write(case["files"]["a.csv"])
+            open(fb, "w").write(case["files"]["b.csv"])
+            code, _ = cli.run_cli(["file", fa, fb])
+        print(f"replay: CLI exit code {code} for a numeric vs a string column of the same name")
+        if code == 0:
+            print(f"VIOLATION property=C03 replay={payload.get('_path', '<replay>')}")
+            return 1
+        return 0
     if case.get("kind") == "p6g-big":
         print("replay: big generated pair, not stored in the payload:", case)
         return 1
